@@ -22,7 +22,7 @@ func (c19) Budget(tier string) (int, int) {
 	if tier == "thorough" {
 		return 3000000, 600
 	}
-	return 30000, 25
+	return 30000, 90
 }
 func (c19) Rule() string {
 	return "REDUCED SCOPE (inputs sampled): histories of 2-10 operations of the zero-allocation class on one Buffer and one destination slice, so that each measured call runs on resources warmed (and dirtied) by arbitrary earlier calls incl. failing ones. A call is measured when it succeeds and its preconditions hold: the Buffer has completed a top-level, non-re-entrant call on a document at least as deeply nested (otherwise the harness first makes one: Valid on the same document), the destination has spare capacity >= len(input) (slack 0..16 drawn per call, so the exact boundary is hit), the handler does not allocate (declines, returns offsets precomputed outside the measured region, or - the repository's benchmark pattern - runs nested traversals four levels deep with one pre-allocated handler and one warmed Buffer per level). Measurement at GOMAXPROCS=1: runtime.MemStats.Mallocs (a) around the very FIRST call after the preconditions hold (no warm-up call of the measured function; a non-zero reading is repeated up to 3 times on resources rebuilt with identical len/cap, minimum taken) and (b) around 8 further repetitions (integer average, minimum of <= 3 attempts); oracle: 0 for both. Inputs are drawn per conversion path: exact-float, Eisel-Lemire, >19-digit truncated mantissa, halfway / multiprecision fallback, subnormal and overflow-edge literals, 18/19/20-digit integers, strings with every escape kind incl. surrogate pairs, nesting up to 10,000 equal to the warmed depth. Non-trivial: a measurement was taken after at least one earlier operation on the same resources; distinct = distinct hashes of (function, input class, handler mode, slack, warmed-by) sequences."
